@@ -599,6 +599,15 @@ C15_addrm(g, o, ln, o2) ==
    /\ (o.slot = "arbiter_rm_watcher" /\ o2.slot # o.slot)
          => g.op.lname \notin SeqToSet(o2.wn) /\ g.op.lname \notin SeqToSet(o2.wll)
 
+\* a request that names an existing watcher, in whatever letter case, is not told "not found" (errno 3 is the
+\* MessageError class; for these commands with well-formed properties nothing else produces it)
+C15_reach(g, ln) ==
+   (ln.k = "reply" /\ g.ctx.on /\ ln.x = g.ctx.cid /\ ln.r = "error" /\ ln.a = 3 /\ g.ctx.hasname /\ ~g.ctx.pattern
+      /\ g.ctx.cmd \in {"start", "stop", "restart", "status", "numprocesses", "list", "stats", "options", "incr", "decr"}
+      /\ g.snap # <<>>)
+     => ~(/\ g.ctx.lname \in SeqToSet(g.snap[3])
+          /\ \E i \in 1..Len(g.snap[1]) : g.snap[1][i].ln = g.ctx.lname /\ g.snap[1][i].n \in SeqToSet(g.snap[2]))
+
 \* ---------------- C18 (confinement of signal / kill requests)
 RECURSIVE Anc(_, _, _)
 Anc(g, p, n) == IF n = 0 \/ p \notin 1..Len(g.par0) \/ g.par0[p] = 0 THEN {} ELSE {g.par0[p]} \cup Anc(g, g.par0[p], n - 1)
@@ -712,6 +721,7 @@ Clauses(g, o, ln, o2, g2) ==
     C14_startgate |-> C14_startgate(g, o, o2), C14_siggate |-> C14_siggate(g, ln),
     C14_events |-> C14_events(g, ln), C14_killsent |-> C14_killsent(g, ln),
     C15_dir |-> C15_dir(g, o2, ln), C15_views |-> C15_views(o, ln), C15_addrm |-> C15_addrm(g, o, ln, o2),
+    C15_reach |-> C15_reach(g, ln),
     C18_confine |-> C18_confine(g, o, ln), C18_exact |-> C18_exact(g, ln),
     C19_order |-> C19_order(g, o, ln), C19_pace |-> C19_pace(g, o, ln), C19_auto |-> C19_auto(g, o, ln, o2) ]
 
